@@ -23,7 +23,7 @@ def conditions(tier, seed):
                                 bound='class with all five core types, two identifiers; attribute %s over its whole pool; route %s' % (dim, route),
                                 case_split=['vi (pool index)'], realised=['serialised text / files'],
                                 twin=(route == 'db' and sh == 0)))
-        for shape in ['one_many', 'one_one', 'refl', 'assoc', 'composite', 'subtype', 'two_ids', 'one_phrase', 'null_ids']:
+        for shape in ['one_many', 'one_one', 'refl', 'assoc', 'composite', 'subtype', 'two_ids', 'one_phrase', 'null_ids', 'combined', 'refl_assoc', 'no_attrs']:
             out.append(Cond('links_%s_%s' % (shape, route), 'c01_rt.py', dict(family='links', dim=shape, route=route), timeout=t,
                             bound='schema %s: every link state over small pools; route %s' % (shape, route),
                             case_split=['vi (link state)'], realised=['serialised text / files'], twin=(route == 'db')))
